@@ -549,6 +549,14 @@ func runSSA(fr *frame, args []value) value { return runSSAEnv(fr, args, nil) }
 
 func runSSAEnv(fr *frame, args []value, env []value) value {
 	i, fn := fr.i, fr.fn
+	// innermost frame of the running goroutine (GC-root bookkeeping; after a panic unwinds
+	// it may briefly point at a dead inner frame, whose caller chain is still a superset)
+	g := Sched.cur
+	var prevTop *frame
+	if g != nil {
+		prevTop = g.top
+		g.top = fr
+	}
 	if fn.Blocks == nil {
 		panic(unsupported("no code for function: " + fn.String()))
 	}
@@ -586,6 +594,9 @@ func runSSAEnv(fr *frame, args []value, env []value) value {
 	// Destroy the locals to avoid accidental use after return.
 	for i := range fn.Locals {
 		fr.locals[i] = bad{}
+	}
+	if g != nil {
+		g.top = prevTop
 	}
 	return fr.result
 }
